@@ -11,7 +11,7 @@ import (
 
 // C06: routing dispatches exactly the method whose binding matches the request.
 
-var c06Lits = []string{"v1", "v2", "a", "b", "items", "x.y", "~z", "a-b", "a%20b", "%7Euser", "caf%C3%A9", "A", "v1beta", "things", "0"}
+var c06Lits = []string{"v1", "v2", "a", "b", "items", "x.y", "~z", "a-b", "a%20b", "%7Euser", "caf%C3%A9", "A", "v1beta", "things", "0", "%24meta", "a%40b", "x%2By", "p%2Cq", "it%3Bem", "k%3Dv", "%28x%29"}
 var c06SegVals = []string{"x", "abc", "a%20b", "a%25b", "100%25", "a%2Fb", "a%2fb", "a%3Ab", "%E6%97%A5", "a+b", "a,b", "a;b", "a=b", "~t", "a.b", "A", "v1", "items", "a%2541", "sp%20ace", "%7E", "@", "a$b", "(x)", "a'b", "a!b", "*", "%2A"}
 var c06Vars = []string{"string_value", "recursive.string_value", "recursive.recursive.string_value", "string_value_wrapper"}
 var c06Methods = []string{"Plain", "Query", "PathStr", "BodyStar", "Del"}
@@ -65,7 +65,7 @@ func genTemplate(c *Chooser, nvars int) string {
 	}
 	t := "/" + strings.Join(segs, "/")
 	if c.Prob(0.25) {
-		t += ":" + Pick(c, "verb", "cancel", "a.b", "x%20y")
+		t += ":" + Pick(c, "verb", "cancel", "a.b", "x%20y", "x%24y")
 	}
 	return t
 }
@@ -156,6 +156,17 @@ func perturbPath(c *Chooser, p string) string {
 		return strings.Replace(p, "~", "%7E", 1)
 	case 9:
 		return strings.Replace(p, "%7E", "~", 1)
+	case 10:
+		// the same path spelled differently: characters that may stand for themselves in a path segment, un-escaped
+		for _, pair := range [][2]string{{"%24", "$"}, {"%40", "@"}, {"%2B", "+"}, {"%2C", ","}, {"%3B", ";"}, {"%3D", "="}, {"%28", "("}, {"%29", ")"}, {"%2A", "*"}, {"%21", "!"}, {"%27", "'"}} {
+			if strings.Contains(p, pair[0]) {
+				if c.Bool() {
+					return strings.Replace(p, pair[0], pair[1], 1)
+				}
+				p = strings.ReplaceAll(p, pair[0], pair[1])
+			}
+		}
+		return p
 	}
 	return p
 }
